@@ -1462,6 +1462,12 @@ func (t *table) gc(now bigtable.Timestamp, done <-chan struct{}, force bool) {
 
 	i := 0
 	t.rows.Ascend(func(r *btpb.Row) bool {
+		// The iteration may run over a snapshot taken when the pass started, and the table lock is released
+		// periodically below. Collect the row as it is stored now, so that a write acknowledged in the
+		// meantime is not overwritten with (or a deleted row resurrected from) the stale copy.
+		if r = t.rows.Get(r.Key); r == nil {
+			return true
+		}
 		changed := false
 		for _, fam := range r.Families {
 			gcRule := rules[fam.Name]
